@@ -66,8 +66,8 @@ ASSUMPTIONS = [
     "XML text <-> tree (ElementTree serialisation/parsing, escaping) is not modelled: the model works on parsed trees; texts avoid U+000D (F06b, C06) and characters outside XML 1.0",
     "names (variables, actions, arguments) are XML names without whitespace; service types contain no '#' or '\"'; names are unique per service (Python dict keys)",
     "float, date and time codecs are not modelled: coerce_python on the texts that occur is supplied to the model by the harness (fact lines); their round trip is a hypothesis of call_roundtrip",
-    "typed values are exactly of the mapped Python type (no bool for int, F06a; no datetime for date); floats are finite, datetimes/times have whole seconds",
-    "allowed lists hold non-empty texts; bounds are non-empty and parse; date/time typed variables carry no default (F05a, C05) and no range/allowed list",
+    "typed values are of the mapped Python type (a bool given for an integer argument is generated and is the integer 1/0; no datetime for date); floats are finite, datetimes/times have whole seconds",
+    "allowed lists hold non-empty texts; bounds are non-empty and parse; date/time typed variables carry defaults but no range / allowed list",
     "handlers keep their contract: results are out-arguments with values valid for the related variable, or UpnpActionError",
     "device icons, allowedValueRange step and max_rate are not part of the compared model",
 ]
@@ -575,6 +575,8 @@ async def run_case(recipe: Dict[str, Any]) -> Tuple[List[str], List[str], bool]:
                 res = await csvcs[i].actions[op["act"]].async_call(**args)
             except Exception as e:  # noqa: BLE001
                 exc = e
+            if any(isinstance(x, bool) and vtypes.get(dict(map(tuple, adef["in"])).get(k)) in INT_TYPES for k, x in args.items()):
+                tags.add("call:bool-for-int")
             lines.append(f"cobs {dict_tok(w.seen)} {client_result_tok(res, exc)}")
             tags.add("call:" + client_result_tok(res, exc).split(":")[0] + ("-err" if "err" in sc else ""))
             nontrivial = nontrivial or bool(args) or bool(sc.get("ret"))
@@ -743,7 +745,29 @@ def g_var(rng, name: str) -> Dict[str, Any]:
             v["allowed"] = [rng.choice(["1", "true", "yes", "0", "no", "TRUE", "False"]) for _ in range(rng.randrange(1, 3))]
         if rng.random() < 0.4:
             v["default"] = rng.choice(v["allowed"]) if "allowed" in v else rng.choice(["1", "0", "true", "no", "Yes"])
+    else:
+        # date / time families: a default in any of the spellings parse_date_time accepts for the type
+        if rng.random() < 0.4:
+            v["default"] = g_date_text(rng, dtype)
     return v
+
+
+def g_date_text(rng, dtype: str) -> str:
+    y, mo, d = rng.randrange(1, 9999), rng.randrange(1, 13), rng.randrange(1, 29)
+    h, mi, s = rng.randrange(24), rng.randrange(60), rng.randrange(60)
+    off = rng.choice(["+00:00", "+01:00", "-05:30", "+1400", "-0045", " +0200"])
+    date, tim = f"{y:04d}-{mo:02d}-{d:02d}", f"{h:02d}:{mi:02d}:{s:02d}"
+    if dtype == "date":
+        return date
+    if dtype == "time":
+        return tim + (off if rng.random() < 0.3 else "")
+    if dtype == "time.tz":
+        return tim + off
+    sep = rng.choice(["T", "T", " "])
+    if dtype == "dateTime":
+        c = rng.randrange(4)
+        return f"{date}{sep}{tim}" if c else f"{date}T{tim}" + rng.choice([off, "Z", "z"])
+    return f"{date}T{tim}" + rng.choice([off, "Z", "z"])
 
 
 def g_defn(rng, small: bool = False) -> Dict[str, Any]:
@@ -790,6 +814,12 @@ def valid_value(rng, v: Dict[str, Any]) -> Any:
     """a recipe-encoded typed value valid for the variable"""
     dtype = v["dtype"]
     if dtype in INT_TYPES:
+        if rng.random() < 0.08:  # a bool where an int is expected (F06a): it is the integer 1 / 0
+            for b in (rng.random() < 0.5, True, False):
+                ok = (int(b) in [int(a) for a in v["allowed"]]) if v.get("allowed") else True
+                ok = ok and (v.get("min") is None or int(v["min"]) <= int(b)) and (v.get("max") is None or int(b) <= int(v["max"]))
+                if ok:
+                    return b
         if v.get("allowed"):
             return int(rng.choice(v["allowed"]))
         lo = int(v["min"]) if v.get("min") is not None else None
@@ -908,6 +938,20 @@ def g_script(rng, svc, act) -> Dict[str, Any]:
     ret = {}
     for name, var in outs:
         ret[name] = valid_value(rng, vmap[var])
+    if c == 3 and rng.random() < 0.5:
+        # the handler breaks its contract: unknown key, wrong type, or a value its own variable rejects
+        k = rng.randrange(3)
+        if k == 0 or not outs:
+            ret["Bogus"] = 1
+        else:
+            name, var = rng.choice(outs)
+            bad = invalid_text(rng, vmap[var])[1] if k == 2 else None
+            ret[name] = "wrong" if vmap[var]["dtype"] not in STR_TYPES else 7
+            if vmap[var]["dtype"] in INT_TYPES and bad is not None:
+                try:
+                    ret[name] = int(bad)
+                except ValueError:
+                    pass
     return {"ret": ret}
 
 
